@@ -73,7 +73,7 @@ CLAIMED = {
  'C07': dict(
    technique="specification sweep (element type x version) with brute-force position probes against an own grammar matcher, plus proptest edit histories with a round-trip (serialize, lenient load) and structure / value-space oracle",
    text="For every sampled (type, version) the reported insertion range, list_valid_sub_elements() and the outcome of create(_named)_sub_element(_at) at every position are compared with the exact set of order-preserving positions; histories check after every successful call that children satisfy the grammar, element types are the prescribed ones, attributes and values are in their value spaces and that the written file reloads without complaint other than RequiredAttributeMissing.",
-   note="The grammar is reconstructed from find_sub_element index vectors and container modes (public API) and matched by own code; adjacent text items of mixed content are compared coalesced (XML cannot tell them apart).",
+   note="The grammar is reconstructed from find_sub_element index vectors and container modes (public API) and matched by own code; adjacent text items of mixed content are compared coalesced (XML cannot tell them apart). Histories start from 16 fixtures: loaded / empty single-file models of five versions, pairs of models of different versions (cross-version copies and moves), and one model with files of two versions (there every file's written text must load without complaint in that file's version).",
    ref="DESIGN.md section 3 C07"),
  'C13': dict(
    technique="property-based testing: generated worlds + one deep copy (same/other parent, other model, other version) or duplicate(); oracles: structural equality up to the computed name suffix, own version filter, object disjointness, index invariants, independence under edits, copy+remove = identity, per-file byte equality for duplicate",
@@ -83,12 +83,12 @@ CLAIMED = {
  'C14': dict(
    technique="metamorphic property-based testing: models built twice (second time with every reorderable sibling list permuted), then sorted; content-preservation, idempotence and permutation-invariance oracles",
    text="Names mix letters and digits (a2/a10/a1b/a02), INDEX and DEFINITION-REF keyed ECUC values, equal keys, mixed kinds in bags, ordered containers, lists of up to 60 siblings (std sort's merge path); which containers are ordered is read from the specification.",
-   note="Siblings that differ only in comments are not generated (the statement lets them keep their relative order).",
+   note="Siblings that differ only in comments are not generated (the statement lets them keep their relative order); siblings that differ only in an attribute value are (L-4/L, SD/GID), as are names whose numeric suffix exceeds u64.",
    ref="DESIGN.md section 3 C14"),
  'C17': dict(
    technique="differential property-based testing: check_version_compatibility / set_version vs strict loading of the harness's own rendering of the same content labelled with the target version, over specification-derived documents targeted at version-sensitive types x 21 targets",
    text="errs.is_empty(), the target bit of the returned mask and the success of set_version are each compared with the result of strictly loading the relabelled content; successful set_version must keep the content and produce a strictly valid file, a failed one must change nothing.",
-   note="Single-file models; the relabelled text is produced by the harness renderer, not by set_version.",
+   note="Three variants: single-file models, two files sharing parents (each file judged against its own projection), and files whose content does not fit their label (valid content of version A, labelled L, loaded leniently; half of these are asked about their own version - there the oracle text is the file's own serialization with the xsd name replaced). Four gaps of the check are recorded (KF-C17-1..4).",
    ref="DESIGN.md section 3 C17"),
  'C09': dict(
    technique="property-based testing with constructed truth: a generated master document is split over 2-4 files at splittable points (file sets per element), optionally with differently ordered named siblings, and loaded in all orders; oracle = master tree with multiset children and assigned file sets, per-file content, order independence",
